@@ -1,6 +1,7 @@
 import IncrVerif.Proofs.BindH3
 import IncrVerif.Proofs.BindH13
 import IncrVerif.Proofs.BindH18
+import IncrVerif.Proofs.BindH44
 /-!
 # C03 (ordering) — nodes built inside a bind closure never run before the bind's change detector
 
@@ -69,9 +70,27 @@ THEOREMS.
 * `scope_not_yet_run` (C03, step form): when a change detector is about to run, no valid node of its scope has been recomputed in this round;
   `scope_node_settled` (C03, ordering form): when a valid node created in scope `.bind b` is about to run, the change detector of `b` is neither queued nor stale.
 
+## PROVED HERE (milestone B2 + B3 END TO END for fragment F0; `Proofs/BindH19.lean` … `BindH44.lean`)
+
+FRAGMENT F0 (`BindH.F0Inv env s`, carried through the drain as auxiliary invariant): every node is valid and top-level, of kind `const`/`var`/pure `map`/`fold`/`bindLhsChange`/
+`bindMain`; bind closures CREATE NO NODES: they return (`ret nK`) a top-level node that is OLDER than the bind and is not a change detector (`closures`, `rhsOld`); change
+detectors are unobserved and have cutoff `.never`; no node is forced necessary; the adjust-heights heap is empty; `propagateInvalidity` is empty.  So the GRAPH CHANGES during the
+drain (a bind's main node is re-linked to another right-hand side, nodes become necessary/unnecessary, heights are adjusted), but no node is created or invalidated.
+* `BindH.GInvB env s op ex` (`BindH19`): `Quiet.GInv` (structural invariant with open nodes `.linking k`/`.unlinking k`) ported to graphs with bind kinds, with a set `ex` of
+  excused nodes (stale, necessary, unqueued: the running node; the main node while its bind's change detector runs).
+* the two necessity cascades keep it: `becameNecessary_specB`, `addParentWithoutAdjustingHeights_specB` (`BindH20–22`), `checkIfUnnecessary_specB`, `becameUnnecessary_specB`,
+  `removeChildren_specB`, `removeParent_dropLast*` (`BindH23–26`).
+* `adjustHeights_specB` (`BindH27–29`): `adjustHeights child parent` from a state in which only the edges into `parent` may violate the height order re-establishes the whole
+  invariant (heights only grow, queued nodes are re-bucketed, the adjust-heights heap is empty again); partial correctness, any `cfg.debug`.
+* `relink_specB : RelinkSpec env` (`BindH30–35`): `modBind rhs; modNode changedAt; changeChildBindRhs` (old rhs unlinked and kept alive by `forceNecessary`, new rhs linked by
+  `stateAddParent` incl. `adjustHeights`, `checkIfUnnecessary old`) keeps the structural invariant.
+* `recomputeOne_lcF0` (`BindH36–41`): a successful run of a change detector from `DInv ∧ F0Inv` satisfies `StepL` and keeps `F0Inv`; `recomputeOne_stepB_F0`, `pop_F0` (`BindH42–43`).
+* `lcStepsOK_F0 : LcStepsOK env (F0Inv env)`, hence WITHOUT any hypothesis about the steps: `drainHeap_F0` (values = `evalB` in the final graph, all change detectors non-stale),
+  `drain_once_F0` (no node runs twice) (`BindH44`).
+
 ## ASSUMED (explicit hypotheses), NOT PROVED HERE
 
-`LcStepsOK env Aux` (the structural half, milestone B2: that `recomputeOne` on a change detector — closure run, `elabTemplate`, `changeChildBindRhs`, `adjustHeights`,
+Outside fragment F0, `LcStepsOK env Aux` (the structural half, milestone B2: that `recomputeOne` on a change detector — closure run, `elabTemplate`, `changeChildBindRhs`, `adjustHeights`,
 invalidation of the old generation — satisfies `StepL`) is a HYPOTHESIS of the drain theorems here.  It was validated by running the Boolean versions of `DInv`,
 `StepRelB`, `StepL` (`BindH.dinvB`, `stepRelBReport`, `stepLReport`) on every step of the drains of 400 generated histories of the fragment (9009 steps, 1739 runs of
 change detectors, 0 violations).  The B1 theorems take `OrderInv` as a hypothesis; `DInv` implies what they need.  The theorems say nothing about INVALID popped nodes
@@ -180,6 +199,31 @@ theorem scope_node_settled {env : Env} {s : State} {m b : Nat} {br : BindRec} (I
     (hb : s.binds[b]? = some br) (hsc : (s.nodeD m).createdIn = .bind b) :
     (s.nodeD br.lhsChange).inRch = false ∧ s.isStale br.lhsChange = false :=
   BindH.scope_node_settled I hb hsc
+
+/-! ## B2 + B3 end to end, fragment F0 -/
+
+/-- **The drain of an F0 program** (bind closures return older top-level nodes): no hypothesis about the steps. -/
+theorem drainHeap_F0 {env : Env} {fuel : Nat} {s s' : State} (I : DInv env s none) (A : F0Inv env s)
+    (h : (drainHeap env fuel).run.run s = (.ok (), s')) :
+    DInv env s' none ∧ F0Inv env s' ∧ s'.rch.length = 0 ∧ s'.vars = s.vars ∧ s'.stabNum = s.stabNum ∧
+    ∀ n, s'.isNecessary n = true → ∀ k, (s'.nodeD n).height.toNat < k →
+      (s'.nodeD n).valid = true ∧ s'.isStale n = false ∧
+        (s'.nodeD n).value = evalB env s' k n ∧ s'.value env n = evalB env s' k n ∧
+        (evalB env s' k n).isSome = true :=
+  BindH.drainHeap_F0 I A h
+
+/-- **No node runs twice in a drain of an F0 program.** -/
+theorem drain_once_F0 {env : Env} (fuel : Nat) (s s' : State) (I : DInv env s none) (A : F0Inv env s)
+    (h : (drainHeap env fuel).run.run s = (.ok (), s')) :
+    (drainTrace env fuel s).Nodup ∧ ∀ m, m ∈ drainTrace env fuel s → RanOnceB s s' m :=
+  BindH.drain_once_F0 fuel s s' I A h
+
+/-- a run of a change detector in F0 satisfies `StepL` and keeps the auxiliary invariant -/
+theorem recomputeOne_lcF0 {env : Env} {fuel n b : Nat} {s s' : State} {r : Option Nat}
+    (I : DInv env s (some n)) (A : F0Inv env s) (hk : (s.nodeD n).kind = .bindLhsChange b)
+    (h : (recomputeOne env fuel n).run.run s = (.ok r, s')) :
+    (∃ br br', StepL env n b br br' r s s') ∧ F0Inv env s' :=
+  BindH.recomputeOne_lcF0 (relink_specB env) I A hk h
 
 /-! ### non-vacuity of the drain invariant and of the step relation for change detectors
 
